@@ -74,7 +74,8 @@ def run_check(pid: str, tier: str, seed: int, only_defs=None, replay_mode=False)
     if getattr(mod, "HOSTILE_OK", None):
         # look-alikes of prelude names the UNCHANGED generator is immune to for this check's derives (established by experiment,
         # DESIGN.md 9.5): guards against a generated path that stops being absolute
-        corpus.add_hostile_twins(mod.HOSTILE_OK, per_name=(6 if tier == "thorough" else 2))
+        extra_h = [x for x in os.environ.get("VERIF_EXTRA_HOSTILE", "").split(",") if x]      # (development aid: trying a new look-alike on every check)
+        corpus.add_hostile_twins(list(mod.HOSTILE_OK) + extra_h, per_name=(6 if tier == "thorough" else 2))
     if not getattr(mod, "NO_CONVENTIONAL_NAMES", False):
         # generic definitions once more under the parameter names everybody writes ('a, T, COUNT ..): see Corpus.add_conventional_name_twins
         corpus.add_conventional_name_twins(limit=(12 if tier == "thorough" else 6))
